@@ -1115,6 +1115,41 @@ func inheritedRel(c *Ctx, f *ssa.Function, s *indexSite) []term {
 					}
 				}
 			}
+			// the argument is the key of a range loop over the very collection handed in: a valid index
+			if ex, isEx := args[qi].(*ssa.Extract); isEx && ex.Index == 0 && !ok {
+				if nx, isNx := ex.Tuple.(*ssa.Next); isNx {
+					if rg, isRg := nx.Iter.(*ssa.Range); isRg && rg.X == args[ci] {
+						k, ok = 1, true
+					}
+				}
+			}
+			if phi, isPhi := args[qi].(*ssa.Phi); isPhi && !ok && strings.HasPrefix(phi.Block().Comment, "rangeindex") {
+				// the index variable of `for i := range xs` / `for i, x := range xs` over a slice
+				if lenOfRangeIndex(phi) == args[ci] {
+					k, ok = 1, true
+				}
+			}
+			// a constant argument against the best constant lower bound of the length
+			if at.base == nil && !ok {
+				bestLen := int64(0)
+				for _, t := range facts.lenGE[ckey] {
+					if t.base == nil && t.k > bestLen {
+						bestLen = t.k
+					}
+				}
+				for changed := true; changed; {
+					changed = false
+					for _, n := range facts.lenNE[ckey] {
+						if n == bestLen {
+							bestLen++
+							changed = true
+						}
+					}
+				}
+				if bestLen > at.k {
+					k, ok = bestLen-at.k, true
+				}
+			}
 			if !ok {
 				fail = true
 				break
@@ -1128,6 +1163,27 @@ func inheritedRel(c *Ctx, f *ssa.Function, s *indexSite) []term {
 		}
 	}
 	return out
+}
+
+// lenOfRangeIndex: for the index phi of a range-over-slice loop, the slice whose length bounds it.
+func lenOfRangeIndex(phi *ssa.Phi) ssa.Value {
+	// rangeindex.loop: t = phi [-1, t+1]; if t+1 < len(xs) …  (go/ssa's lowering); find the comparison with len(xs)
+	for _, r := range *phi.Referrers() {
+		bo, ok := r.(*ssa.BinOp)
+		if !ok || bo.Op != token.ADD {
+			continue
+		}
+		for _, r2 := range *bo.Referrers() {
+			cmp, ok := r2.(*ssa.BinOp)
+			if !ok || cmp.Op != token.LSS || cmp.X != ssa.Value(bo) {
+				continue
+			}
+			if a, isLen := lenArg(cmp.Y); isLen {
+				return a
+			}
+		}
+	}
+	return nil
 }
 
 // typeInvariantLen: reviewed invariants attached to a type rather than to one expression (tables/index.json,
@@ -1394,6 +1450,39 @@ func dischargeIndexWith(c *Ctx, s *indexSite, inherited int64) (string, string, 
 			case "strings.Split", "strings.SplitN":
 				if sep, ok := constString(call.Common().Args[1]); ok && sep != "" {
 					apiMin = 1
+				}
+			}
+		}
+	}
+	// net/url.PathUnescape / QueryUnescape of a non-empty text is non-empty (an escape yields one byte, anything else is
+	// copied): the text here is a slice of constant positive width
+	sx := s.X
+	if ex, ok := sx.(*ssa.Extract); ok && ex.Index == 0 {
+		sx = ex.Tuple
+	}
+	if call, ok := sx.(*ssa.Call); ok {
+		if cl := call.Common().StaticCallee(); cl != nil && (cl.String() == "net/url.PathUnescape" || cl.String() == "net/url.QueryUnescape") && len(call.Common().Args) == 1 {
+			if sl, ok := stripConv(call.Common().Args[0]).(*ssa.Slice); ok && sl.Low != nil && sl.High != nil {
+				lo, hi := termOf(sl.Low), termOf(sl.High)
+				if lo.base == hi.base && hi.k-lo.k >= 1 {
+					// … when it did not fail: the error of the same call is known nil here
+					for _, r := range *call.Referrers() {
+						ev, isEx := r.(*ssa.Extract)
+						if !isEx || ev.Index != 1 {
+							continue
+						}
+						for _, fa := range ff.At(b) {
+							bo, isBo := fa.Cond.(*ssa.BinOp)
+							if !isBo || (bo.Op != token.EQL && bo.Op != token.NEQ) {
+								continue
+							}
+							if (bo.X == ssa.Value(ev) && isNilConst(bo.Y)) || (bo.Y == ssa.Value(ev) && isNilConst(bo.X)) {
+								if (bo.Op == token.EQL) == fa.Val {
+									apiMin = 1
+								}
+							}
+						}
+					}
 				}
 			}
 		}
